@@ -240,6 +240,10 @@ func c14(r *core.Report) {
 			fmt.Sprintf("%s of %s without holding %s (held here: %s; entry lockset of the function: %s): a concurrent writer under the lock races with this access", kind, k.field.Name(), g.mu.Name(), L.At[in], L.Entry[k.fn]))
 	}
 
+	// ---- C14-WRITES-EXCLUSIVE
+	r.Rule("C14-WRITES-EXCLUSIVE", "every store to any field of a struct that carries a table mutex holds that mutex exclusively (construction excepted)", 20)
+	ruleWritesExclusive(r, L, "C14-WRITES-EXCLUSIVE")
+
 	// ---- C14-NO-FOREIGN-UNDER-LOCK
 	r.Rule("C14-NO-FOREIGN-UNDER-LOCK", "no transport send, inner-swarm call or hub delivery while a table lock is held", 10)
 	h := resolveHubs(r)
@@ -695,4 +699,175 @@ func ruleDeliverOwned(r *core.Report, h *hubSlots, ruleID string) {
 			}
 		}
 	}
+}
+
+// writesAuditedUnlocked: fields of mutex-bearing structs that are written after construction without the
+// mutex, "Type.field" -> reason.
+var writesAuditedUnlocked = map[string]string{}
+
+// ruleWritesExclusive: the guarded-field table lists the fields found by reading the code; a field added later
+// (a cache, a scratch buffer, a counter) is not in it. Whatever its name, a field of a struct that carries a table
+// mutex is shared state: a store to it (also to an element of it, a map update or delete) outside construction
+// must hold the mutex in write mode. A store under RLock (or none) races with the other readers.
+// only restricts the rule to the named struct types ("rel:Type").
+func ruleWritesExclusive(r *core.Report, L *core.Locks, ruleID string, only ...string) {
+	p := r.P
+	muOf := map[*types.Var]*types.Var{}
+	owner := map[*types.Var]string{}
+	for _, g := range guardTable {
+		if len(only) > 0 && !containsStr(only, g.rel+":"+g.typ) {
+			continue
+		}
+		mu := needField(r, g.rel, g.typ, g.mu)
+		n := needNamed(r, g.rel, g.typ)
+		if mu == nil || n == nil {
+			continue
+		}
+		st, _ := n.Underlying().(*types.Struct)
+		if st == nil {
+			continue
+		}
+		for i := 0; i < st.NumFields(); i++ {
+			f := st.Field(i)
+			tn := f.Type().String()
+			if f == mu || strings.HasPrefix(tn, "sync.") || strings.HasPrefix(tn, "sync/atomic.") || strings.HasPrefix(tn, "atomic.") {
+				continue
+			}
+			muOf[f.Origin()] = mu.Origin()
+			owner[f.Origin()] = g.typ
+		}
+	}
+	type wk struct {
+		fn *ssa.Function
+		f  *types.Var
+	}
+	bad := map[wk]ssa.Instruction{}
+	good := map[wk]int{}
+	for _, fn := range p.ModFuncs {
+		if strings.Contains(fn.String(), "swarmtest") || strings.Contains(fn.String(), "p2ptest") {
+			continue
+		}
+		for _, in := range core.AllInstrs(fn) {
+			fa, ok := in.(*ssa.FieldAddr)
+			if !ok {
+				continue
+			}
+			f, base := core.FieldOfAddr(fa)
+			if f == nil || muOf[f.Origin()] == nil {
+				continue
+			}
+			write := false
+			for _, ref := range *fa.Referrers() {
+				switch y := ref.(type) {
+				case *ssa.Store:
+					write = write || y.Addr == ssa.Value(fa)
+				case *ssa.IndexAddr:
+					for _, r2 := range *y.Referrers() {
+						if st, ok := r2.(*ssa.Store); ok && st.Addr == ssa.Value(y) {
+							write = true
+						}
+					}
+				case *ssa.UnOp:
+					for _, r2 := range *y.Referrers() {
+						switch z := r2.(type) {
+						case *ssa.MapUpdate:
+							write = write || z.Map == ssa.Value(y)
+						case ssa.CallInstruction:
+							if core.IsBuiltin(z.Common(), "delete") && z.Common().Args[0] == ssa.Value(y) {
+								write = true
+							}
+						}
+					}
+				}
+			}
+			if !write {
+				continue
+			}
+			if core.DerivesFromDirect(base, func(v ssa.Value) bool {
+				a, ok := v.(*ssa.Alloc)
+				return ok && a.Parent() == fn
+			}) {
+				continue // under construction
+			}
+			if optionAppliedAtConstruction(p, fn, base) {
+				continue
+			}
+			k := wk{fn, f.Origin()}
+			mode, held := L.At[in][muOf[f.Origin()]]
+			if held && mode {
+				good[k]++
+			} else if _, seen := bad[k]; !seen {
+				bad[k] = in
+			}
+		}
+	}
+	for k, n := range good {
+		if _, isBad := bad[k]; isBad {
+			continue
+		}
+		r.OK(ruleID, fmt.Sprintf("%s write %s.%s", core.FnName(k.fn), owner[k.f], k.f.Name()), p.Pos(k.fn.Pos()), fmt.Sprintf("%d store(s) with %s held exclusively", n, muOf[k.f].Name()))
+	}
+	for k, in := range bad {
+		c := fmt.Sprintf("%s write %s.%s", core.FnName(k.fn), owner[k.f], k.f.Name())
+		if why, ok := writesAuditedUnlocked[owner[k.f]+"."+k.f.Name()]; ok {
+			r.OK(ruleID, c, p.Pos(in.Pos()), "audited: "+why)
+			continue
+		}
+		r.Analysed(k.fn)
+		r.Violation(ruleID, c, p.Pos(in.Pos()), fmt.Sprintf("store to %s.%s without holding %s in write mode (held here: %s): the struct is shared, concurrent callers (readers under RLock included) race on this field", owner[k.f], k.f.Name(), muOf[k.f].Name(), L.At[in]))
+	}
+}
+
+// optionAppliedAtConstruction: fn is a function literal whose single parameter is the object written (a
+// functional option), its signature is that of a named func type of its package, and every dynamic call of a
+// value of that type in the module passes an object that is still under construction in the calling function.
+func optionAppliedAtConstruction(p *core.Prog, fn *ssa.Function, base ssa.Value) bool {
+	if fn.Parent() == nil || len(fn.Params) != 1 || fn.Pkg == nil {
+		return false
+	}
+	if core.Through(base) != ssa.Value(fn.Params[0]) {
+		return false
+	}
+	var optT *types.Named
+	sc := fn.Pkg.Pkg.Scope()
+	for _, name := range sc.Names() {
+		tn, ok := sc.Lookup(name).(*types.TypeName)
+		if !ok {
+			continue
+		}
+		n, ok := tn.Type().(*types.Named)
+		if !ok {
+			continue
+		}
+		if sig, isSig := n.Underlying().(*types.Signature); isSig && sig.Params().Len() == 1 && sig.Results().Len() == 0 {
+			// generic option types: compare the parameter's named origin
+			a, b := namedOrigin(derefType(sig.Params().At(0).Type())), namedOrigin(derefType(fn.Params[0].Type()))
+			if a != nil && a == b {
+				optT = n
+			}
+		}
+	}
+	if optT == nil {
+		return false
+	}
+	calls := 0
+	for _, g := range p.ModFuncs {
+		for _, in := range core.AllInstrs(g) {
+			ci, ok := in.(ssa.CallInstruction)
+			if !ok || ci.Common().IsInvoke() || core.StaticCallee(ci.Common()) != nil {
+				continue
+			}
+			if namedOrigin(ci.Common().Value.Type()) != optT.Origin() || len(ci.Common().Args) != 1 {
+				continue
+			}
+			calls++
+			if !core.DerivesFromDirect(ci.Common().Args[0], func(v ssa.Value) bool {
+				a, ok := v.(*ssa.Alloc)
+				return ok && a.Parent() == g
+			}) {
+				return false
+			}
+		}
+	}
+	return calls > 0
 }
